@@ -138,10 +138,11 @@ class Cfg:
         self.lists = {k: [] for k in self.GLISTS}    # global lists (strings)
         self.count_exclude = []     # pattern forms
         self.scanner_exclude = None  # None = default [".git/**"]; else list of pattern forms
+        self.cli_exclude = []       # pattern forms given on the command line (-x / --exclude), appended to scanner.exclude
         self.rules = []             # dicts: scope, scalars, lists, file_naming_pattern, siblings, relative_depth
 
     def eff_scanner_exclude(self):
-        return [("under", ".git")] if self.scanner_exclude is None else self.scanner_exclude
+        return ([("under", ".git")] if self.scanner_exclude is None else list(self.scanner_exclude)) + list(self.cli_exclude)
 
     # ---- TOML
     def toml(self):
@@ -634,8 +635,11 @@ def decode_impl(impl, spell=""):
 THRESH = [0.0, 0.5, 0.8, 0.9, 1.0, 0.07, 0.33, 0.75, 0.1, 0.6]
 NAMING = [r"^[a-z_0-9]+\.rs$", r"^[A-Z][a-zA-Z0-9]*\.tsx$", r"^[a-z]", r"\.rs$", r"^[^.]+$", r"^\p{L}+\.", r"^(mod|lib)\.rs$", r"^k\d\.rs$"]
 EXTS = [".rs", ".py", ".bin", ".md", ".tsx", ".exe", ".gz", ".tmp", ".css", ".json", ".", ".txt", ".go", ".x"]
-FILE_PATS = ["*.md", "README*", "temp_*", "k?.rs", "*.test.tsx", "Makefile", "LICENSE", ".*", "*.tar.gz", "[a-c].*", "{mod,lib}.rs", "*"]
-DIR_PATS = ["src", "gen", "tests", "utils", "d?", "node_modules", ".*", "[a-c]", "__pycache__", "{lib,docs}", "*"]
+# the t... entries are NAME patterns whose literal head coincides with the start of every project-relative path (t/...):
+# a list that is meant for names only must not be tried against the path (star crosses the separator)
+FILE_PATS = ["*.md", "README*", "temp_*", "k?.rs", "*.test.tsx", "Makefile", "LICENSE", ".*", "*.tar.gz", "[a-c].*", "{mod,lib}.rs",
+             "t*.rs", "t*", "t*.md", "t/*", "t*s?", "*"]
+DIR_PATS = ["src", "gen", "tests", "utils", "d?", "node_modules", ".*", "[a-c]", "__pycache__", "{lib,docs}", "t*", "t*s", "t/*", "t*[a-z]", "*"]
 
 
 def scope_pool(rng, root):
@@ -690,7 +694,7 @@ def gen_relative_rule(rng, root):
         if tail == "/**":
             below = [n for n in below if n is not d] or [d]
         x = rng.choice(below)
-        rel = x.path.count("/") - j                        # relative depth of x under the real base depth j
+        rel = x.path.count("/") + 1 - j                    # relative depth of x: components of its project-relative path minus the base depth j (fixes/D47)
         r = {"scope": scope, "relative_depth": True, "max_depth": max(0, rel - rng.choice([1, 1, 1, 0, 2, -1]))}
         if rng.random() < 0.3:
             r["warn_threshold"] = rng.choice(THRESH)
@@ -724,6 +728,17 @@ def gen_excludes(rng, cfg, root):
             cfg.scanner_exclude.append(("under", ".git"))
         # never exclude the scan root itself (walker corner, not modelled)
         cfg.scanner_exclude = [p for p in cfg.scanner_exclude if not (m_name(p, ROOT_NAME) or m_path(p, ROOT_NAME))]
+    # exclude patterns given on the command line (-x): appended to scanner.exclude by the runner; they must prune the
+    # structure scan exactly like the same pattern written in the configuration
+    if rng.random() < 0.35:
+        dl = [n for n in names if n.kind == "d"]
+        for _ in range(rng.randint(1, 2)):
+            if dl and rng.random() < 0.7:
+                d_ = rng.choice(dl)
+                cfg.cli_exclude.append(rng.choice([("under", d_.path), ("any", d_.name), ("anyunder", d_.name), ("lit", d_.path)]))
+            else:
+                cfg.cli_exclude.append(some_pattern())
+        cfg.cli_exclude = [p for p in cfg.cli_exclude if not (m_name(p, ROOT_NAME) or m_path(p, ROOT_NAME))]
 
 
 def lim_near(rng, root, what):
@@ -953,15 +968,53 @@ def new_case(rng, flavour, backend=None, bad=False):
         if any(cfg.lists[k] for k in ("allow_extensions", "allow_files", "allow_dirs")):
             for k in ("deny_extensions", "deny_patterns", "deny_files", "deny_dirs"):
                 cfg.lists[k] = []
-    return {"root": root, "gis": gis, "cfg": cfg, "backend": backend or rng.choice(["walkdir", "ignore"]),
-            "flavour": "bad" if bad else flavour, "bad": bad, "perm_seed": rng.getrandbits(32),
-            "spell": rng.choice(["", "", "./"])}
+    c = {"root": root, "gis": gis, "cfg": cfg, "backend": backend or rng.choice(["walkdir", "ignore"]),
+         "flavour": "bad" if bad else flavour, "bad": bad, "perm_seed": rng.getrandbits(32),
+         "spell": rng.choice(["", "", "./"]), "roots": None}
+    if not bad and rng.random() < 0.22:
+        c["roots"] = gen_roots(rng, root, c["spell"])
+    return c
+
+
+ROOT_SPELLINGS = {"plain": "%s", "dot": "./%s", "slash": "%s/", "dotslash": "./%s/", "slashdot": "%s/.", "abs": "%s"}
+
+
+def gen_roots(rng, root, sp):
+    """a request of several scan roots that all lie at or below t (fixes/D50): other spellings of t itself, directories
+    and files below it, repeated entries.  The FIRST spelling of t in the list is sp+t (the one that must survive, so the
+    walked paths are spelled as in the single-root run); entries are (kind, project-relative path)."""
+    first = ("dot" if sp else "plain", ROOT_NAME)
+    below = [n for n in root.walk() if n is not root and n.kind in ("d", "f")]
+    roots = [first]
+    for _ in range(rng.randint(1, 3)):
+        if rng.random() < 0.3 or not below:
+            e = (rng.choice(["plain", "dot", "slash", "dotslash", "slashdot", "abs"]), ROOT_NAME)
+            roots.insert(rng.randint(roots.index(first) + 1, len(roots)), e)      # after the designated spelling of t
+        else:
+            n = rng.choice(below)
+            e = (rng.choice(["plain", "plain", "dot", "abs"] + (["slash", "slashdot"] if n.kind == "d" else [])), n.path)
+            roots.insert(rng.randint(0, len(roots)), e)
+    if rng.random() < 0.25:
+        roots.append(rng.choice(roots))                                           # a literal repetition
+    return roots
+
+
+def render_roots(roots, proj=None):
+    """library leg: the absolute spelling is only meaningful for the real CLI (the harness process changes its
+    directory per case while the normaliser remembers the first one), there it is written plainly"""
+    out = []
+    for kind, rel in roots:
+        if kind == "abs":
+            out.append(os.path.join(proj, rel) if proj else rel)
+        else:
+            out.append(ROOT_SPELLINGS[kind] % rel)
+    return out
 
 
 def case_key(c):
     h = _hl.sha256()
     h.update(c["cfg"].toml().encode())
-    h.update((c["backend"] + c.get("spell", "")).encode())
+    h.update((c["backend"] + c.get("spell", "") + repr(c.get("roots"))).encode())
     for n in c["root"].walk():
         h.update(("%s|%s|%s\n" % (n.path, n.kind, n.otype)).encode())
     for d, lines in c["gis"]:
@@ -1001,6 +1054,8 @@ def run_batch(exes, cases, cli_idx=(), explain_dirs=2, rng=None):
             apply_gitignore(c["root"], c["gis"], c["backend"] == "ignore")
             sp = c.setdefault("spell", "")
             lines.append(json.dumps({"proj": sb.proj, "root": sp + ROOT_NAME, "gitignore": c["backend"] == "ignore",
+                                     "extra_exclude": [glob(p_) for p_ in c["cfg"].cli_exclude],
+                                     **({"roots": render_roots(c["roots"])} if c.get("roots") else {}),
                                      "nodes": [[sp + n.path, n.kind] for n in c["root"].walk()]}))
         env = clean_env(home.home)
         outs = _shard(harness, lines, ["case"], env)
@@ -1037,9 +1092,11 @@ def run_batch(exes, cases, cli_idx=(), explain_dirs=2, rng=None):
         def cli(i):
             c, sb = cases[i], boxes[i]
             sp = c["spell"]
-            args = ["check", sp + ROOT_NAME, "--format", "json", "--no-sloc-cache", "--color", "never"]
+            args = ["check"] + (render_roots(c["roots"], sb.proj) if c.get("roots") else [sp + ROOT_NAME]) + ["--format", "json", "--no-sloc-cache", "--color", "never"]
             if c["backend"] == "walkdir":
                 args.append("--no-gitignore")
+            for p_ in c["cfg"].cli_exclude:
+                args += ["-x", glob(p_)]
             rc, out, err = sb.run(sgcli, args, env={"RAYON_NUM_THREADS": "2"})
             res = {"rc": rc, "err": err[-400:], "explain": {}}
             try:
@@ -1077,9 +1134,10 @@ LIMIT_KINDS = ("file_count", "dir_count", "max_depth")
 
 def describe(c):
     """everything needed to rebuild the case (replay files, samples)"""
-    return {"toml": c["cfg"].toml(), "backend": c["backend"], "flavour": c["flavour"],
+    return {"toml": c["cfg"].toml(), "cli_exclude": [glob(p_) for p_ in c["cfg"].cli_exclude], "backend": c["backend"], "flavour": c["flavour"],
             "nodes": [[n.path, n.kind, n.otype] for n in c["root"].walk()],
-            "gitignores": [[d.path, lines] for d, lines in c["gis"]], "perm_seed": c["perm_seed"], "spell": c.get("spell", "")}
+            "gitignores": [[d.path, lines] for d, lines in c["gis"]], "perm_seed": c["perm_seed"], "spell": c.get("spell", ""),
+            "roots": [list(r_) for r_ in c["roots"]] if c.get("roots") else None}
 
 
 def rebuild(desc, cfg):
@@ -1098,7 +1156,8 @@ def rebuild(desc, cfg):
     assign_paths(root)
     gis = [(by[p], lines) for p, lines in desc["gitignores"]]
     return {"root": root, "gis": gis, "cfg": cfg, "backend": desc["backend"], "flavour": desc["flavour"], "bad": desc["flavour"] == "bad",
-            "perm_seed": desc["perm_seed"], "spell": desc.get("spell", "")}
+            "perm_seed": desc["perm_seed"], "spell": desc.get("spell", ""),
+            "roots": [tuple(r_) for r_ in desc["roots"]] if desc.get("roots") else None}
 
 
 def diff_list(a, b):
@@ -1163,6 +1222,11 @@ def evaluate(c):
         r["corr"]["scope-sites"] = sites
     if lit_bad:
         r["prop"]["scope-spelling"] = lit_bad[:6]
+    if c.get("roots"):
+        r["tags"].add("multi-root")
+        # every requested root is t or lies below it: exactly the first spelling of t is walked (fixes/D50)
+        if impl.get("walked") != [sp + ROOT_NAME]:
+            r["prop"]["roots"] = {"requested": render_roots(c["roots"]), "walked": impl.get("walked"), "expected": [sp + ROOT_NAME]}
     if sp:
         r["tags"].add("root-spelled-dot-slash")
     if any(r_["scope"].startswith("./") for r_ in c["cfg"].rules):
@@ -1186,14 +1250,40 @@ def evaluate(c):
         r["prop"]["limits"] = diff_list(d["limits"], m["spec_limits"])
     if d["placement"] != m["spec_placement"]:
         r["prop"]["placement"] = diff_list(d["placement"], m["spec_placement"])
+    # no entry, file or directory (fixes/D48), is reported twice by the placement lists, and nothing but an entry of the tree
     seen = {}
-    files = {n.path for n in c["root"].walk() if n.kind == "f"}
+    known = {n.path for n in c["root"].walk()}
     for v in d["placement"]:
-        if v[0] in files:
-            seen[v[0]] = seen.get(v[0], 0) + 1
+        seen[v[0]] = seen.get(v[0], 0) + 1
     twice = [p for p, k in seen.items() if k > 1]
     if twice:
         r["prop"]["file-reported-twice"] = twice[:5]
+    stray = [p for p in seen if p not in known]
+    if stray:
+        r["prop"]["file-reported-twice"] = (r["prop"].get("file-reported-twice") or []) + ["not an entry: " + p for p in stray[:5]]
+    # count_exclude never exempts an entry from placement (fixes/D49), the generator's own reading for the plainest list:
+    # a scanned, count-excluded file whose extension is on the global deny_extensions list is reported unless the consulted
+    # rule has an allowlist
+    if impl["scan_enabled"] and c["cfg"].lists["deny_extensions"] and not any(c["cfg"].lists[k_] for k_ in ("allow_extensions", "allow_files", "allow_dirs")):
+        dexts = set(c["cfg"].lists["deny_extensions"])
+        rep = {v[0] for v in d["placement"]}
+        missing = []
+        for n in c["root"].walk():
+            if n.kind != "f" or n.ign or n.path not in d["files"]:
+                continue
+            o_ = impl["oracle"][sp + n.path]
+            if not (o_["ce_name"] or o_["ce_path"]):
+                continue
+            k_ = n.name.rfind(".")
+            ext = n.name[k_:] if k_ > 0 else None
+            if ext in dexts and n.path not in rep:
+                po = impl["oracle"].get(sp + n.parent.path)
+                consulted = [i_ for i_, b_ in enumerate(po["lim"]) if b_] if po else []
+                if consulted and any(c["cfg"].rules[consulted[-1]].get(k2) for k2 in ("allow_extensions", "allow_patterns", "allow_files")):
+                    continue
+                missing.append(n.path)
+        if missing:
+            r["prop"]["count-excluded-not-placed"] = missing[:5]
     # directed sibling rules, by the generator's own reading: a scanned file that the rule's file matcher accepts, in a
     # directory the rule's scope matches, needs parent/<template with {stem} := std file_stem> among the scanned files
     if impl["checker_enabled"]:
@@ -1257,6 +1347,8 @@ def evaluate(c):
     if any(n.ign for n in c["root"].walk()):
         tg.add("ignored-entries")
     o = impl["oracle"]
+    if c["cfg"].cli_exclude:
+        tg.add("cli-exclude")
     if any(glob(p_).startswith("./") for p_ in c["cfg"].eff_scanner_exclude() + c["cfg"].count_exclude):
         tg.add("exclude-spelled-dot-slash")
     if any(v["se_name"] or v["se_path"] or v["se_dir"] for v in o.values()):
@@ -1451,6 +1543,162 @@ def eval_mapcase(m):
     return r
 
 
+# --------------------------------------------------------------------------- resolve_scan_paths on arbitrary requests (fixes/D50)
+ROOT_COMPS = ["src", "src-tauri", "src2", "sr", "lib", "a", "b", "x y", "Src", "..", "t", "src.d"]
+
+
+def gen_rootlist(rng, cwd):
+    def one():
+        comps = [rng.choice(ROOT_COMPS) for _ in range(rng.choice([0, 1, 1, 1, 2, 2, 3]))]
+        if not comps:
+            return rng.choice([".", "./", "././", cwd, cwd + "/"])
+        rel = "/".join(comps)
+        return rng.choice([rel, rel, rel, "./" + rel, rel + "/", rel + "/.", "./" + rel + "//", rel.replace("/", "//"), rel.replace("/", "\\"),
+                           cwd + "/" + rel, "/elsewhere/" + rel, cwd + "x/" + rel, cwd + "/./" + rel])
+    l = [one() for _ in range(rng.randint(1, 5))]
+    if rng.random() < 0.5:
+        l.insert(rng.randint(0, len(l)), rng.choice(l))
+    if rng.random() < 0.6:
+        l.insert(rng.randint(0, len(l)), rng.choice(l).rstrip("/") + "/" + rng.choice(ROOT_COMPS))
+    if rng.random() < 0.3:
+        b = rng.choice(l).rstrip("/.")
+        if b:
+            l.insert(rng.randint(0, len(l)), b + rng.choice(["-tauri", "2", ".d", "x"]))     # same string prefix, another component
+    return l
+
+
+def py_root_key(root, cwd):
+    """the generator's own reading of normalize_for_matching + the marker of Structure/Roots.v"""
+    u = root.replace("\\", "/")
+    comps = [x for x in u.split("/") if x not in ("", ".")]
+    absolute = u.startswith("/")
+    if absolute:
+        c = [x for x in cwd.split("/") if x]
+        if comps[:len(c)] == c:
+            comps, absolute = comps[len(c):], False
+    return (["/"] if absolute else ["."]) + comps
+
+
+def py_kept(keys):
+    def covers(o, i):
+        return ".." not in o and ".." not in i and i[:len(o)] == o
+    return [i for i, ki in enumerate(keys)
+            if not any(j != i and covers(kj, ki) and (ki != kj or j < i) for j, kj in enumerate(keys))]
+
+
+def run_rootcases(exes, rng, n):
+    """-> (n, corr mismatches, prop failures, tags)"""
+    harness, _, model = exes
+    cwd = os.getcwd()
+    reqs = [gen_rootlist(rng, cwd) for _ in range(n)]
+    outs = _shard(harness, [json.dumps({"roots": r_}) for r_ in reqs], ["roots"], None)
+    impls = []
+    for o in outs:
+        try:
+            impls.append(json.loads(o))
+        except Exception:
+            impls.append({"fatal": o[:200]})
+    msx = [[[sx_str(c_) for c_ in k_] for k_ in im.get("keys", [])] for im in impls]
+    mlines = ["roots " + sx_dump(x_) for x_ in msx]
+    mouts = _shard(model, mlines, [], None)
+    run_rootcases.xitems = [("roots", x_, o_) for x_, o_ in list(zip(msx, mouts))[:60]]
+    corr, prop, tags = [], [], {}
+    for req, im, mo in zip(reqs, impls, mouts):
+        if "fatal" in im:
+            corr.append({"roots": req, "harness": im["fatal"]})
+            continue
+        try:
+            mk = sx_parse(mo)
+        except Exception:
+            mk = None
+        keys = [py_root_key(r_, cwd) for r_ in req]
+        want = py_kept(keys)
+        bad = {}
+        if im["keys"] != keys:
+            bad["keys"] = {"impl": im["keys"], "expected": keys}
+        if im["walked"] != want or not im["subsequence"]:
+            bad["walked"] = {"impl": im["walked_paths"], "expected": [req[i] for i in want]}
+        if bad:
+            prop.append({"roots": req, "cwd": cwd, "failed": bad})
+        if mk != im["walked"]:
+            corr.append({"roots": req, "impl": im["walked"], "model": mk})
+        for t_, on in (("dropped-some", len(want) < len(req)), ("kept-several", len(want) > 1), ("parent-component", any(".." in k_ for k_ in keys)),
+                       ("absolute-inside-cwd", any(r_.startswith(cwd + "/") or r_ == cwd for r_ in req)), ("absolute-elsewhere", any(k_[0] == "/" for k_ in keys)),
+                       ("string-prefix-not-component-prefix", any(a != b and b[-1].startswith(a[-1]) and a[:-1] == b[:-1] and len(a) > 1 and a[-1] != b[-1] for a in keys for b in keys))):
+            if on:
+                tags[t_] = tags.get(t_, 0) + 1
+    return len(reqs), corr, prop, tags
+
+
+# --------------------------------------------------------------------------- the project root has no name (fixes/D51)
+def has_dir_name_lists(cfg):
+    return bool(cfg.lists["allow_dirs"] or cfg.lists["deny_dirs"] or cfg.global_deny_dir_patterns()
+                or any(r_.get("allow_dirs") or r_.get("deny_dirs") for r_ in cfg.rules))
+
+
+def run_rootname_leg(exes, cases, k):
+    """the tree t of a case made a project of its own (its configuration written into it): `check`, `check .` and
+    `check <absolute path>` from inside must give the same structure results, and the root itself is never reported by
+    the directory name lists, whatever the directory is called -> (runs, failures)"""
+    _, sgcli, _ = exes
+    picked = [c for c in cases if not c["bad"] and has_dir_name_lists(c["cfg"])][:k]
+    fails, runs = [], 0
+
+    def one(c):
+        with Sandbox(prefix="sgv-structure-rn-") as sb:
+            materialise(sb, c["root"], c["gis"], c["cfg"].toml())
+            proj = os.path.join(sb.proj, ROOT_NAME)
+            with open(os.path.join(proj, ".sloc-guard.toml"), "w") as f:
+                f.write(c["cfg"].toml())
+            res = {}
+            for name, extra in (("none", []), ("dot", ["."]), ("abs", [proj]), ("abs-slash", [proj + "/"])):
+                args = ["check"] + extra + ["--format", "json", "--no-sloc-cache", "--color", "never"] + ([] if c["backend"] == "ignore" else ["--no-gitignore"])
+                rc, out, err = sb.run(sgcli, args, cwd=proj, env={"RAYON_NUM_THREADS": "2"})
+                try:
+                    rows = canon_cli_results(json.loads(out))
+                except Exception:
+                    res[name] = ("ERR", rc, (out + err)[-300:])
+                    continue
+                norm = lambda p_: "." if p_ in (".", "./", "") else (p_[2:] if p_.startswith("./") else p_)
+                res[name] = sorted(((norm(v[0]),) + v[1:] for v in rows), key=repr)
+            bad = {}
+            for name in ("dot", "abs", "abs-slash"):
+                if res[name] != res["none"]:
+                    bad[name] = diff_list(res[name], res["none"]) if isinstance(res[name], list) and isinstance(res["none"], list) else {"a": res[name], "b": res["none"]}
+            for name, rows in res.items():
+                if isinstance(rows, list):
+                    own = [v for v in rows if v[0] == "." and v[1] in ("denied_directory", "disallowed_directory")]
+                    if own:
+                        bad.setdefault("root-reported", {})[name] = own[:3]
+            return c, bad
+    with _cf.ThreadPoolExecutor(max_workers=8) as ex:
+        for c, bad in ex.map(one, picked):
+            runs += 4
+            if bad:
+                fails.append((c, bad))
+    return runs, fails
+
+
+# --------------------------------------------------------------------------- known finding K07_file_root_sibling (D52)
+def probe_file_root_sibling(exes):
+    """the witness of the finding: True = still reproduces, False = gone, None = the probe itself failed"""
+    _, sgcli, _ = exes
+    with Sandbox(prefix="sgv-structure-k07-") as sb:
+        sb.write(".sloc-guard.toml", 'version = "2"\n\n[[structure.rules]]\nscope = "src/components"\nsiblings = [{ match = "Button.tsx", require = "{stem}.test.tsx" }]\n')
+        sb.write("src/components/Button.tsx", "x\n")
+        sb.write("src/components/Button.test.tsx", "x\n")
+        got = {}
+        for name, root in (("dir", "."), ("file", "src/components/Button.tsx")):
+            rc, out, err = sb.run(sgcli, ["check", root, "--format", "json", "--no-sloc-cache", "--color", "never"])
+            try:
+                got[name] = [v for v in canon_cli_results(json.loads(out)) if v[1] == "missing_sibling"]
+            except Exception:
+                return None, (out + err)[-300:]
+        if got["dir"]:
+            return None, "the witness is reported under the directory root too: %s" % got["dir"]
+        return bool(got["file"]), got["file"]
+
+
 # --------------------------------------------------------------------------- vm_compute cross-check
 def coq_sx_parse(txt):
     """parse Coq's printing of an sx value: L [I 1; I (-2); L []]"""
@@ -1490,7 +1738,7 @@ def xcheck_structure(ctx, items, k):
     small = [it for it in items if len(sx_dump(it[1])) < 30000]
     ctx.rng.shuffle(small)
     pick = small[:k]
-    fn = {"run": "run_sx", "checkmap": "checkmap_sx"}
+    fn = {"run": "run_sx", "checkmap": "checkmap_sx", "roots": "roots_sx"}
     exprs = ["%s (%s)" % (fn[mode], sx_coqz(sx)) for mode, sx, _ in pick]
     res = coq_eval("From Coq Require Import ZArith NArith List.\nFrom SG Require Import Structure.Run.", exprs)
     bad = 0
@@ -1508,7 +1756,8 @@ def xcheck_structure(ctx, items, k):
 # --------------------------------------------------------------------------- Cfg (de)serialisation for replays / corpus
 def cfg_to_json(cfg):
     return {"g": cfg.g, "lists": cfg.lists, "count_exclude": [list(p) for p in cfg.count_exclude],
-            "scanner_exclude": None if cfg.scanner_exclude is None else [list(p) for p in cfg.scanner_exclude], "rules": cfg.rules}
+            "scanner_exclude": None if cfg.scanner_exclude is None else [list(p) for p in cfg.scanner_exclude],
+            "cli_exclude": [list(p) for p in cfg.cli_exclude], "rules": cfg.rules}
 
 
 def cfg_from_json(j):
@@ -1517,6 +1766,7 @@ def cfg_from_json(j):
     cfg.lists = {k: j["lists"].get(k, []) for k in Cfg.GLISTS}
     cfg.count_exclude = [tuple(p) for p in j["count_exclude"]]
     cfg.scanner_exclude = None if j["scanner_exclude"] is None else [tuple(p) for p in j["scanner_exclude"]]
+    cfg.cli_exclude = [tuple(p) for p in j.get("cli_exclude", [])]
     cfg.rules = j["rules"]
     return cfg
 
@@ -1546,9 +1796,10 @@ def load_structure_corpus():
 
 # --------------------------------------------------------------------------- the check shared by C06 and C07
 C06_PARTS = {"corr": ("stats", "limits", "explain", "cli-explain", "config_ok", "model", "cli", "cli-run", "scope-sites"),
-             "prop": ("counts", "limits", "scope-spelling", "valid-config-rejected", "invalid-config-accepted")}
+             "prop": ("counts", "limits", "roots", "scope-spelling", "valid-config-rejected", "invalid-config-accepted")}
 C07_PARTS = {"corr": ("files", "placement", "siblings", "config_ok", "model", "cli", "cli-run", "scope-sites"),
-             "prop": ("placement", "file-reported-twice", "rule-consulted", "directed-sibling", "scope-spelling", "valid-config-rejected", "invalid-config-accepted")}
+             "prop": ("placement", "file-reported-twice", "count-excluded-not-placed", "roots", "rule-consulted", "directed-sibling", "scope-spelling",
+                      "valid-config-rejected", "invalid-config-accepted")}
 
 
 def run_structure(ctx, prop, prop_files, flavours, n_cases, n_cli_every, n_maps, nontrivial):
@@ -1620,6 +1871,28 @@ def run_structure(ctx, prop, prop_files, flavours, n_cases, n_cli_every, n_maps,
                 keys_nontrivial.add(_hl.sha256(("map" + m["cfg"].toml() + json.dumps(m["stats"])).encode()).hexdigest())
             xitems.append(("checkmap", m["sx"], m["model_raw"]))
         hist["dirstats-map"] = nmaps
+    # ---- resolve_scan_paths on arbitrary requests (both properties: C06 counts of one walk, C07 nothing twice)
+    nroots, roots_corr, roots_prop, roots_tags = run_rootcases(exes, rng, 1500 if ctx.tier == "quick" else 10000)
+    hist["scan-root-requests"] = nroots
+    for t, k_ in roots_tags.items():
+        tagh["roots:" + t] = k_
+    validated += nroots - len(roots_corr)
+    xitems.extend(run_rootcases.xitems)
+    # ---- the project root has no name; the witness of the known finding (C07)
+    rootname_fails, rootname_runs = [], 0
+    if prop == "C07":
+        rootname_runs, rootname_fails = run_rootname_leg(exes, cases, 40 if ctx.tier == "quick" else 200)
+        cli_runs += rootname_runs
+        hist["project-root-name-runs"] = rootname_runs
+        still, detail = probe_file_root_sibling(exes)
+        if still is True:
+            if not ctx.known("K07_file_root_sibling", "missing_sibling for a file given as scan root: %s" % detail):
+                ctx.violation({"kind": "property-oracle", "failed": {"file-root-sibling": detail},
+                               "witness": "rule scope=src/components siblings=[{match=Button.tsx, require={stem}.test.tsx}], both files present: `check src/components/Button.tsx` reports a missing sibling"})
+        elif still is False:
+            ctx.notes.append("known finding K07_file_root_sibling: the witness no longer reproduces (a file given as scan root finds its companion); remove the entry")
+        else:
+            ctx.notes.append({"K07_file_root_sibling probe failed": str(detail)[:300]})
     # ---- Path::extension / file_stem mirror against std, on every name that occurred (C07)
     pf_bad = []
     if prop == "C07":
@@ -1643,7 +1916,7 @@ def run_structure(ctx, prop, prop_files, flavours, n_cases, n_cli_every, n_maps,
     ctx.cov["traces_validated_against_impl"] = validated
     ctx.cov["input_distribution"] = {"cases_by_flavour_and_backend": hist, "feature_tags": dict(sorted(tagh.items())),
                                      "cli_process_runs": cli_runs, "skipped": len(skipped), "corpus_cases": len(corpus)}
-    ctx.cov["model_vs_impl_mismatches"] = len(corr_bad) + len(map_bad_corr)
+    ctx.cov["model_vs_impl_mismatches"] = len(corr_bad) + len(map_bad_corr) + len(roots_corr)
     for c in cases[len(corpus):len(corpus) + 3]:
         d = describe(c)
         d["nodes"] = d["nodes"][:25]
@@ -1663,7 +1936,18 @@ def run_structure(ctx, prop, prop_files, flavours, n_cases, n_cli_every, n_maps,
         ctx.violation({"kind": "property-oracle", "failed": pb, "toml": m["cfg"].toml(), "dirstats": m["stats"], "impl": m["impl"].get("limits"),
                        "mapcase": {"cfg": cfg_to_json(m["cfg"]), "stats": m["stats"]},
                        "replay_cmd": "python3 tools/vp.py check %s --replay <this file>" % prop})
-    if not prop_bad and not map_bad_prop:
+    for rp_ in roots_prop[:3]:
+        ctx.violation({"kind": "property-oracle", "failed": {"scan-roots": rp_["failed"]}, "roots": rp_["roots"], "cwd": rp_["cwd"],
+                       "note": "resolve_scan_paths must walk exactly the outermost requested roots (component-wise, after normalisation), the first of equal spellings",
+                       "replay_cmd": "python3 tools/vp.py check %s --replay <this file>" % prop})
+    for c, bad in rootname_fails[:3]:
+        ctx.violation({"kind": "property-oracle", "failed": {"root-name": bad}, "case": case_to_json(c),
+                       "note": "the tree t as a project of its own (configuration written to t/.sloc-guard.toml), run from inside with no path / . / the absolute path",
+                       "replay_cmd": "python3 tools/vp.py check %s --replay <this file>" % prop})
+    if not prop_bad and not map_bad_prop and not roots_prop and not rootname_fails:
+        if roots_corr and not (corr_bad or map_bad_corr):
+            ctx.violation({"kind": "correspondence-broken", "relation": "resolve_scan_paths of /repo == extracted Structure.Roots.kept on the marked normalised keys",
+                           "first_mismatch": roots_corr[0], "mismatches": len(roots_corr)}, no_input=True)
         if corr_bad or map_bad_corr:
             if corr_bad:
                 c, cb = corr_bad[0]
@@ -1692,8 +1976,18 @@ def replay_structure(ctx, path):
         print("model:", m["model_raw"][:3000])
         print("eval :", eval_mapcase(m))
         return 0
+    if "roots" in j and "case" not in j:
+        import random as _rr
+        harness, _, model = exes
+        out = _shard(harness, [json.dumps({"roots": j["roots"]})], ["roots"], None)
+        print("impl :", out[0])
+        print("own  :", [j["roots"][i] for i in py_kept([py_root_key(r_, os.getcwd()) for r_ in j["roots"]])])
+        return 0
     cj = j.get("case") or j["first_mismatch"]["case"]
     c = case_from_json(cj)
+    if "root-name" in (j.get("failed") or {}):
+        print(run_rootname_leg(exes, [c], 1))
+        return 0
     run_batch(exes, [c], cli_idx=[0])
     ev = evaluate(c)
     print(c["cfg"].toml())
